@@ -2,6 +2,7 @@ use crate::report::Report;
 use crate::Ctx;
 
 pub mod c01;
+pub mod c02;
 pub mod c04;
 pub mod c12;
 pub mod c10;
@@ -17,6 +18,7 @@ pub mod c20;
 pub fn run(prop: &str, ctx: &mut Ctx) -> Option<Report> {
     match prop {
         "C01" => Some(c01::run(ctx)),
+        "C02" => Some(c02::run(ctx)),
         "C04" => Some(c04::run(ctx)),
         "C12" => Some(c12::run(ctx)),
         "C10" => Some(c10::run(ctx)),
